@@ -60,7 +60,7 @@ def make_plan(seed: int, tier: str, opts: dict) -> dict:
         for ep in eps:
             ep["nsteps"] = min(ep["nsteps"], 6)
             ep["rtf"] = 1
-    return dict(spec=spec, seed=seed, episodes=eps, train=train, hash_recv=train is None, clock="wall" if wall else "sim", line_rate=0.0, compile=[dict(mode=m, prune=p, api=r.choice(APIS)) for m, p in pairs[:opts.get("pairs", 1)]])
+    return dict(spec=spec, seed=seed, episodes=eps, train=train, hash_recv=train is None, clock="wall" if wall else "sim", line_rate=0.0, compile=[dict(mode=m, prune=p, api=r.choice(APIS)) for m, p in pairs[:(1 if fast else opts.get("pairs", 1))]])  # (fast sinks: one instance, XLA compile time)
 
 
 def index_events(evs):
